@@ -28,10 +28,10 @@ type caseC12 struct {
 }
 
 // NumNoise is the number of fieldNoise recipes.
-const NumNoise = 7
+const NumNoise = 8
 
 // fieldNoise calls one of the layer's other exported functions with operands derived from seed.
-func fieldNoise(kind int, seed *big.Int) {
+func fieldNoise(kind int, seed *big.Int, operand *field.Element) {
 	full := ref.Bytes32(new(big.Int).Mod(new(big.Int).Add(new(big.Int).Lsh(seed, 64), pm1), ref.P)) // a value with all four words in use
 	a := field.New()
 	switch kind {
@@ -49,6 +49,20 @@ func fieldNoise(kind int, seed *big.Int) {
 		a.FromBytesNoReduce(full)
 		field.New().SqrtRatio(a, field.New().One())
 		_ = a.Bytes()
+	case 7:
+		// a caller's own mistakes (nil receivers and operands), recovered: the layer must be as usable as before
+		a.FromBytesNoReduce(full)
+		if operand != nil {
+			a.Set(operand) // the mistaken calls are made with the very operand of the call under test
+		}
+		var z *field.Element
+		for _, f := range []func(){func() { z.Invert(*a) }, func() { z.Add(a, a) }, func() { z.Multiply(a, a) }, func() { field.New().Add(nil, a) },
+			func() { field.New().Multiply(a, nil) }, func() { z.SqrtRatio(a, a) }, func() { field.New().SqrtRatio(nil, a) }, func() { _ = z.Bytes() }, func() { z.Square(a) }} {
+			func() {
+				defer func() { _ = recover() }()
+				f()
+			}()
+		}
 	case 6:
 		a.FromBytesNoReduce(full)
 		b := field.New().Invert(*a)
@@ -145,11 +159,11 @@ var c12 = gen.Register(&gen.Check[caseC12]{
 	},
 	Required: []string{"mont-operand", "alias", "wrap:add", "wrap:sub", "sqrt:square", "sqrt:non-square", "equals:one-mont-limb", "op:invert"},
 	Run: func(c caseC12, o *gen.Obs) error {
+		u, v, out := c.U.Build(), c.V.Build(), c.Prior.Build()
 		if c.Noise > 0 {
-			fieldNoise(c.Noise, c.Prior.Value())
+			fieldNoise(c.Noise, c.Prior.Value(), c.U.Build())
 			o.Class("after-other-call")
 		}
-		u, v, out := c.U.Build(), c.V.Build(), c.Prior.Build()
 		vu, vv := c.U.Value(), c.V.Value()
 		switch c.Alias {
 		case "out=u":
@@ -356,7 +370,7 @@ var c12bytes = gen.Register(&gen.Check[caseC12bytes]{
 		v := ref.OS2IP(data)
 		o.NonTrivial()
 		if c.Noise > 0 {
-			fieldNoise(c.Noise, new(big.Int).Rsh(v, 7))
+			fieldNoise(c.Noise, new(big.Int).Rsh(v, 7), nil)
 			o.Class("after-other-call")
 		}
 		switch c.Kind {
